@@ -568,6 +568,21 @@ func (C07) Gen(r *core.Rng, tier string, emit func(string)) {
 	if tier == "thorough" {
 		nHook, nE2E = 60000, 1500
 	}
+	// the deepest zoom: the wanted tiles sit in the last leaf of zoom 31, whose end is the first ID of zoom 32
+	// (the end of the ID space the format addresses) — the bound RelevantEntries takes from maxzoom+1
+	{
+		const end31 = uint64(6148914691236517205) // (4^32-1)/3
+		for _, back := range []uint64{40, 1000} {
+			es := []pmtiles.EntryV3{
+				{TileID: end31 - back - 300, Offset: 0, Length: 10, RunLength: 3},
+				{TileID: end31 - back - 200, Offset: 100, Length: 50, RunLength: 0},
+				{TileID: end31 - back, Offset: 150, Length: 60, RunLength: 0},
+			}
+			emit(fmt.Sprintf("relevant 31 %s D %s", fmtIvs([]iv{{end31 - 7, end31 - 2}}), fmtEntries(es)))
+			emit(fmt.Sprintf("relevant 31 %s D %s", fmtIvs([]iv{{end31 - back - 299, end31 - back - 298}, {end31 - 1, end31}}), fmtEntries(es)))
+		}
+	}
+
 	for i := 0; i < nHook; i++ {
 		emit(relevantLine(r))
 		// reencode: tile entries only
